@@ -231,9 +231,16 @@ def faulty_optimizer(base, k, origin):
     import optax
 
     def poison(tree, hit, which):
-        if which == "nn":
+        if which in ("nn", "nn_partial"):
             leaves, treedef = jax.tree_util.tree_flatten(tree.nn_params)
-            leaves = [jnp.where(hit, jnp.nan, leaves[0])] + leaves[1:]
+            if which == "nn":
+                leaves = [jnp.where(hit, jnp.nan, leaves[0])] + leaves[1:]
+            else:
+                # only ONE entry of the largest leaf becomes NaN (no leaf is entirely NaN)
+                j = max(range(len(leaves)), key=lambda i: leaves[i].size)
+                flat = leaves[j].reshape(-1)
+                flat = flat.at[0].set(jnp.where(hit, jnp.nan, flat[0]))
+                leaves = leaves[:j] + [flat.reshape(leaves[j].shape)] + leaves[j + 1:]
             import equinox as eqx
 
             return eqx.tree_at(lambda t: t.nn_params, tree, jax.tree_util.tree_unflatten(treedef, leaves))
@@ -249,11 +256,15 @@ def faulty_optimizer(base, k, origin):
         hit = count == k
         if origin == "grad_nn":
             grads = poison(grads, hit, "nn")
+        elif origin == "grad_nn_partial":
+            grads = poison(grads, hit, "nn_partial")
         elif origin == "grad_eq":
             grads = poison(grads, hit, "eq")
         updates, inner = base.update(grads, inner, params)
         if origin == "update_nn":
             updates = poison(updates, hit, "nn")
+        elif origin == "update_nn_partial":
+            updates = poison(updates, hit, "nn_partial")
         elif origin == "update_eq":
             updates = poison(updates, hit, "eq")
         if "trip" in updates.eq_params:
